@@ -295,3 +295,7 @@ def units(tier):
 
 def selftest():
     return stats.selftest()
+
+
+# dimensions added after the fourth and fifth round of seeded changes (DESIGN.md 8.3, 8.4); part of the rule reported in the evidence
+RULE += ' Added with the fourth and fifth round of seeded changes: histories with more than 128 convergence columns (step 1-2, 2-3 runs of 66..80 traces); convergence_step changed on the object between runs (spacing rule uses the step in force).'
